@@ -1411,4 +1411,54 @@ Section Refine.
       rewrite (fsize_app_eq _ _ FM). unfold fsize. rewrite app_length. cbn [length]. lia.
     - unfold merged. cbn [n_its]. rewrite app_length. cbn [length]. lia.
   Qed.
+
+  (* ---------------------------------------------------------------------------------------- *)
+  (* node.remove                                                                                *)
+  (* the result of items.find is determined by the order facts *)
+  Lemma items_find_no its x J1 J2 : sorted its -> its = J1 ++ J2 -> all_lt J1 x -> lt_all x J2 ->
+    items_find ltb its x = (length J1, false).
+  Proof.
+    intros Hs E H1 H2. destruct (items_find_spec its x Hs) as [K1 K2 EK G1 G2|K1 y K2 EK G1 EQ G2].
+    - f_equal. rewrite E in EK.
+      destruct (Nat.lt_trichotomy (length K1) (length J1)) as [LT|[EQL|GT]]; [exfalso| exact EQL |exfalso].
+      + (* element number |K1| is in J1 (below x) and in K2 (above x) *)
+        assert (exists z, nth_error (J1 ++ J2) (length K1) = Some z) as [z Hz].
+        { destruct (nth_error (J1 ++ J2) (length K1)) eqn:N; [eauto|]. apply nth_error_None in N. rewrite app_length in N. lia. }
+        assert (In z J1) by (rewrite nth_error_app1 in Hz by lia; eapply nth_error_In; eauto).
+        rewrite EK in Hz. rewrite nth_error_app2 in Hz by lia. rewrite Nat.sub_diag in Hz.
+        destruct K2 as [|k K2']; [discriminate|]. cbn in Hz. inversion Hz; subst.
+        pose proof (H1 z H) as A1. pose proof (G2 z (or_introl eq_refl)) as A2.
+        rewrite (lt_asym ltb lt_irrefl lt_trans _ _ A1) in A2. discriminate.
+      + assert (exists z, nth_error (K1 ++ K2) (length J1) = Some z) as [z Hz].
+        { destruct (nth_error (K1 ++ K2) (length J1)) eqn:N; [eauto|]. apply nth_error_None in N. rewrite app_length in N. lia. }
+        assert (In z K1) by (rewrite nth_error_app1 in Hz by lia; eapply nth_error_In; eauto).
+        rewrite <- EK in Hz. rewrite nth_error_app2 in Hz by lia. rewrite Nat.sub_diag in Hz.
+        destruct J2 as [|k J2']; [discriminate|]. cbn in Hz. inversion Hz; subst.
+        pose proof (G1 z H) as A1. pose proof (H2 z (or_introl eq_refl)) as A2.
+        rewrite (lt_asym ltb lt_irrefl lt_trans _ _ A1) in A2. discriminate.
+    - exfalso. rewrite E in EK.
+      assert (Hy : In y (J1 ++ J2)) by (rewrite EK; apply in_or_app; right; left; reflexivity).
+      apply in_app_or in Hy as [Hy|Hy].
+      + pose proof (H1 y Hy) as A. destruct EQ as [_ E2]. unfold C07_BTreeOrder.lt in A. congruence.
+      + pose proof (H2 y Hy) as A. destruct EQ as [E1 _]. unfold C07_BTreeOrder.lt in A. congruence.
+  Qed.
+
+  Lemma items_find_yes its x J1 y J2 : sorted its -> its = J1 ++ y :: J2 -> eqv x y ->
+    items_find ltb its x = (length J1, true).
+  Proof.
+    intros Hs E EQ. destruct (items_find_spec its x Hs) as [K1 K2 EK G1 G2|K1 y' K2 EK G1 EQ' G2].
+    - exfalso. assert (Hy : In y (K1 ++ K2)) by (rewrite <- EK, E; apply in_or_app; right; left; reflexivity).
+      apply in_app_or in Hy as [Hy|Hy].
+      + pose proof (G1 y Hy) as A. destruct EQ as [_ E2]. unfold C07_BTreeOrder.lt in A. congruence.
+      + pose proof (G2 y Hy) as A. destruct EQ as [E1 _]. unfold C07_BTreeOrder.lt in A. congruence.
+    - f_equal. rewrite E in EK. rewrite E in Hs. destruct (sorted_mid ltb _ _ _ Hs) as (A1 & A2 & _ & _).
+      destruct (Nat.lt_trichotomy (length K1) (length J1)) as [LT|[EQL|GT]]; [exfalso|symmetry; exact EQL|exfalso].
+      + (* y' is in J1, hence below y; but both are equivalent to x *)
+        assert (Hz : nth_error (J1 ++ y :: J2) (length K1) = Some y') by (rewrite EK; apply nth_error_mid).
+        rewrite nth_error_app1 in Hz by lia. apply nth_error_In in Hz. pose proof (A1 y' Hz) as B.
+        assert (C : lt x y) by (apply (lt_eqv_l ltb lt_negtrans x y' y EQ' B)). destruct EQ as [E1 _]. unfold C07_BTreeOrder.lt in C. congruence.
+      + assert (Hz : nth_error (K1 ++ y' :: K2) (length J1) = Some y) by (rewrite <- EK; apply nth_error_mid).
+        rewrite nth_error_app1 in Hz by lia. apply nth_error_In in Hz. pose proof (G1 y Hz) as B.
+        destruct EQ as [_ E2]. unfold C07_BTreeOrder.lt in B. congruence.
+  Qed.
 End Refine.
